@@ -542,7 +542,9 @@ def run_points(inp):
                 continue
             for idx in np.ndindex(*shape):
                 u = np.array(H.Point(k[idx].copy(), model="klein").coords(m))
-                ok = rows_proj_eq(c[idx], u, 1e-9) if m == "projective" else allclose(c[idx], u, 1e-9)
+                # points that are ideal only up to rounding: Poincare coordinates contain sqrt(1 - |k|^2) and are determined to ~1e-8 only
+                tolc = 1e-6 if inp["ideal"] else 1e-9
+                ok = rows_proj_eq(c[idx], u, tolc) if m == "projective" else allclose(c[idx], u, tolc)
                 if not ok:
                     bad.append({"what": "coords", "model": m, "idx": list(idx), "composite": c[idx].tolist(), "unit": u.tolist()})
                     break
